@@ -91,23 +91,24 @@ type Check struct {
 	Workers int
 
 	// accumulated over jobs
-	Stats        interp.Stats
-	Jobs         int
-	JobTags      map[string]int64
-	findings     map[string]*Finding
-	cases        []NativeCase
-	caseMeta     []caseMeta
-	samples      []interface{}
-	Inconclusive map[string]int64
-	Covers       map[string]int64
-	Assumptions  []string
-	Bounds       []string
-	Extra        map[string]interface{}
-	EngineErrors []string
-	Mismatches   []string
-	Validated    int
-	Vacuous      []string
-	funcs        map[string]int64
+	Stats           interp.Stats
+	Jobs            int
+	JobTags         map[string]int64
+	findings        map[string]*Finding
+	cases           []NativeCase
+	caseMeta        []caseMeta
+	samples         []interface{}
+	Inconclusive    map[string]int64
+	Covers          map[string]int64
+	Assumptions     []string
+	Bounds          []string
+	Extra           map[string]interface{}
+	EngineErrors    []string
+	Mismatches      []string
+	Validated       int
+	Vacuous         []string
+	KnownCrashPaths int64
+	funcs           map[string]int64
 }
 
 type caseMeta struct {
@@ -118,6 +119,7 @@ type caseMeta struct {
 	expectID string // assertion id expected to fail natively ("" = none)
 	sig      string
 	job      *interp.Job
+	nfail    int
 }
 
 func newCheck(id, tier string, seed int64) *Check {
@@ -202,6 +204,13 @@ func (c *Check) Explore(job *interp.Job, extra func(pr *interp.PathResult)) inte
 			c.Inconclusive["solver-unknown"]++
 		case interp.OutPanic:
 			sig := fmt.Sprintf("panic|%s|%s|%s", shortFn(pr.Func), sourceLine(pr.Site), normMsg(pr.Msg))
+			if c.ID != "C01" && c.Known.match("C01", sig) != nil {
+				// a crash that is already recorded as a known finding of C01 is not
+				// re-reported by every other property whose exploration meets it
+				c.KnownCrashPaths++
+				c.addCase(job, pr, "", sig)
+				break
+			}
 			c.addFinding(&Finding{Signature: sig, What: fmt.Sprintf("panic %q in %s at %s", firstLine(pr.Msg), shortFn(pr.Func), pr.Site), Job: job, Witness: pr.Witness, Input: in, Kind: "panic"})
 			c.addCase(job, pr, "", sig)
 		case interp.OutHang:
@@ -278,7 +287,7 @@ func (c *Check) addCase(job *interp.Job, pr *interp.PathResult, expect, sig stri
 		return
 	}
 	c.cases = append(c.cases, NativeCase{ID: len(c.cases), Entry: job.Entry, Params: job.Params, Witness: pr.Witness})
-	c.caseMeta = append(c.caseMeta, caseMeta{outcome: pr.Outcome, obs: pr.Obs, msg: pr.Msg, site: pr.Site, sig: sig, job: job})
+	c.caseMeta = append(c.caseMeta, caseMeta{outcome: pr.Outcome, obs: pr.Obs, msg: pr.Msg, site: pr.Site, sig: sig, job: job, nfail: len(pr.Failures)})
 }
 
 func (c *Check) mergeStats(st interp.Stats) {
@@ -339,7 +348,7 @@ func (c *Check) Validate() error {
 			c.Validated++
 			continue
 		}
-		pr := &interp.PathResult{Outcome: m.outcome, Obs: m.obs, Msg: m.msg, Site: m.site}
+		pr := &interp.PathResult{Outcome: m.outcome, Obs: m.obs, Msg: m.msg, Site: m.site, Failures: make([]interp.Failure, m.nfail)}
 		if ok, why := agree(pr, nr); !ok {
 			c.mismatch(i, why)
 			continue
@@ -487,6 +496,9 @@ func (c *Check) writeEvidence(wall float64, violations int, note string) {
 		"encoding":                      "SSA of /repo's working tree rebuilt by go/packages+go/ssa on this run; harness injected by overlay",
 		"load_s":                        c.R.LoadSecs,
 		"native_build_s":                c.R.BuildSecs,
+	}
+	if c.KnownCrashPaths > 0 {
+		cov["paths_ending_in_a_known_C01_crash"] = c.KnownCrashPaths
 	}
 	if note != "" {
 		cov["note"] = note
